@@ -1,4 +1,4 @@
-import FmtModel.Props.C09
+import FmtModel.Props.C09g
 import FmtModel.Props.C02
 import FmtModel.Classes.Version
 import FmtModel.Classes.Naming
